@@ -20,6 +20,8 @@ Definition optbool_eqb (a b : option bool) : bool :=
 
 Definition optunit_eqb (a b : option (dec * str)) : bool :=
   match a, b with None, None => true | Some x, Some y => unit_eqb x y | _, _ => false end.
+Definition optoptstr_eqb (a b : option (option str)) : bool :=
+  match a, b with None, None => true | Some x, Some y => optstr_eqb x y | _, _ => false end.
 Definition DT (y m d h mi s u : N) (z : option Z) : dtime := mkdt y m d h mi s u z.
 (* the same instant and the same offset; Z and +00:00 both decode to offset 0 *)
 Definition midnight (y m d : N) : dtime := mkdt y m d 0 0 0 0 None.
@@ -38,7 +40,7 @@ Inductive ccase :=
 | CRgb (r g b : Z) (enc : option str) (dec : option (N * N * N))   (* rgb2hex((r,g,b)) ; hex2rgb of that *)
 | CHexDec (t : str) (out : option (N * N * N))
 | CCss (name : str) (enc : option str) (dec : option (N * N * N))  (* rgb2hex(name) ; hex2rgb of that *)
-| CHexa (t : str) (out : option str)                   (* hexa_color(t) *)
+| CHexa (i : hinput) (out : option (option str))       (* hexa_color(i): None = raised, Some None = returned None *)
 | CUnitStr (d : dec) (u : str) (enc : str) (back : option (dec * str))   (* str(Unit(d, u)) ; Unit(that) as (value.as_tuple(), unit) *)
 | CUnitDec (t : str) (out : option (dec * str)).       (* Unit(t) *)
 
@@ -118,7 +120,15 @@ Definition chk18 (css : list (str * (Z * Z * Z))) (c : ccase) : nat :=
         | None => 3
         end
       end
-  | CHexa t out => if optstr_eqb out (hexa_color_str css t) then 0 else 3
+  | CHexa i out =>
+      match out with
+      | Some (Some h) =>
+          (* what is returned must be #rrggbb and denote the colour given *)
+          if negb (color_lexical h) then 2
+          else if negb (optrgb_eqb (hex2rgb h) (hexa_denotes css i)) then 1
+          else if optoptstr_eqb out (hexa_color css i) then 0 else 3
+      | _ => if optoptstr_eqb out (hexa_color css i) then 0 else 3
+      end
   | CUnitStr d u enc back =>
       (* lengths compare by numeric value and unit (Unit.__eq__) *)
       if negb (match back with Some (d', u') => dec_num_eqb d d' && str_eqb u u' | None => false end) then 1
